@@ -109,7 +109,14 @@ def run(ctx):
     num, depth = (6000, 400) if quick else (60000, 600)
     hs = histories(ctx, num, depth, "C11_sim.cfg" if quick else "C11_sim_big.cfg", "sim")
     ctx.log("%d distinct operation histories from TLC simulation" % len(hs))
-    nev, nkept, impl, mon = replay_and_validate(ctx, hs, "sim")
+    # in chunks: one trace per 3 000 histories keeps every TLC run (and the driver's trace) small
+    nev = nkept = 0
+    impl, mon = {"drift": []}, {"viols": []}
+    for c0 in range(0, len(hs), 3000):
+        a, b, i2, m2 = replay_and_validate(ctx, hs[c0:c0 + 3000], "sim%d" % (c0 // 3000))
+        nev, nkept = nev + a, nkept + b
+        impl["drift"] += i2["drift"]
+        mon["viols"] += m2["viols"]
     ctx.log("replayed: %d events, %d judged; drift=%d, monitor violations=%d" % (nev, nkept, len(impl["drift"]), len(mon["viols"])))
     if model_cex and not ctx.violations and not ctx.known_hits:
         raise vf.Inconclusive("ItemTreeSpec violates %s in TLC but no real execution reproduced it" % model_cex)
